@@ -250,6 +250,7 @@ pub fn outputs(case: &Value, settings: &mut Settings, set: &TxnSet<'_>) -> Value
                 let r = RegisterReporter { report_settings: RegisterSettings::try_from(&*settings)? };
                 r.write_txt_report(settings, w, set)
             }),
+            "probe" => guarded(|| Ok(crate::ops::strict::probe(case, settings))),
             _ => json!({"r": "BADCASE", "msg": format!("unknown output {w}")}),
         };
         out.insert(w, v);
